@@ -20,10 +20,12 @@ with them is tested by the harness under numpy 2.4.6 (python3-vt), not proved.
 
 Where the code makes the full statement false the negation is proved on a concrete witness and the fragment
 that holds is kept as `…_partial`:
-* F24  `reduce_contiguous_faithful_partial` / `reduce_transposed_counterexample`
-* F25  `reduce_strided_faithful_partial` / `reduce_negative_stride_counterexample`
-* F26  `total_buffer_len_covers_partial` / `total_buffer_len_floor_counterexample`
 * F27  `read_inverts_write_partial` needs `itemsize ≥ 1` / `itemsize_zero_counterexample`
+Repaired in /repo (b514cf6: F24; 5cddabe: F25, F26) — the model follows the repaired code and the full
+statements are the property theorems `reduce_contiguous_faithful`, `reduce_strided_faithful`,
+`total_buffer_len_covers`; the witnesses against the code as it was are kept in the section "PRE-FIX witnesses"
+(`prefix_transposed_counterexample`, `prefix_negative_stride_counterexample`,
+`prefix_total_buffer_len_floor_counterexample`) over the `…PreFix` definitions of the model file.
 (F16, `np.matrix` loading as a plain `ndarray` under numpy 2, is about a `hasattr` on a numpy object: it
 has no arithmetic to model and is reproduced by the harness oracle only.)
 
@@ -269,14 +271,14 @@ theorem order_choice (c f : Bool) (o : Order) (shape idx : List Nat) (h : shape.
     | C => rfl
     | F => exact cIndex_reverse shape idx h
 
-/-! ## the worker path: `_reduce_memmap_backed` -/
+/-! ## the worker path: `_reduce_memmap_backed` / `_strided_from_memmap` (the code after /repo b514cf6, 5cddabe) -/
 
 /-- **reduce_offset.** The offset handed to the worker is the file offset of the LOWEST byte of the view:
 `a_start - m_start + m.offset`, where for a backing memmap with non-negative strides `m_start` is the
 address that file offset `m.offset` is mapped at. -/
-theorem reduce_offset (a m : Arr) (m_offset : Nat) (a_c a_f m_f : Bool)
+theorem reduce_offset (a m : Arr) (m_offset : Nat) (a_c a_f : Bool)
     (hm : ∀ s ∈ m.strides, 0 ≤ s) :
-    (reduceMemmapBacked a m m_offset a_c a_f m_f).offset
+    (reduceMemmapBacked a m m_offset a_c a_f).offset
       = (a.ptr + lowAdj a.shape a.strides) - m.ptr + m_offset := by
   have : (byteBounds m).1 = m.ptr := by
     simp [byteBounds, lowAdj_nonneg_strides m.shape m.strides hm]
@@ -284,108 +286,25 @@ theorem reduce_offset (a m : Arr) (m_offset : Nat) (a_c a_f m_f : Bool)
   simp only [this]
   cases (a_f || a_c) <;> simp [byteBounds]
 
-/-- **reduce_strided_faithful** (`_partial`, F25): for a non-contiguous view ALL of whose strides are
-non-negative, the array rebuilt in the worker (`as_strided` on a 1-d memmap starting at `offset`) finds every
-element at the file offset where the original view has it. -/
-theorem reduce_strided_faithful_partial (a m : Arr) (m_offset : Nat) (m_f : Bool) (idx : List Nat)
-    (hm : ∀ s ∈ m.strides, 0 ≤ s) (ha : ∀ s ∈ a.strides, 0 ≤ s) :
-    rebuiltElemOffset (reduceMemmapBacked a m m_offset false false m_f) a.itemsize idx
-      = originalElemOffset a m m_offset idx := by
-  have h1 : (byteBounds m).1 = m.ptr := by
-    simp [byteBounds, lowAdj_nonneg_strides m.shape m.strides hm]
-  have h2 : (byteBounds a).1 = a.ptr := by
-    simp [byteBounds, lowAdj_nonneg_strides a.shape a.strides ha]
-  simp only [reduceMemmapBacked, Bool.or_self, Bool.false_eq_true, if_false, rebuiltElemOffset,
-    originalElemOffset, h1, h2]
-  omega
-
-/-- F25 witness: `m` = a C-order int64 memmap of 8 items, `a = m[::-1]` (`ptr` at the last item, stride −8).
-The rebuilt view looks for element 0 at file offset 0 — the original has it at 56 — and for element 1 at
-offset −8, before the mapping (wrong values, or SIGSEGV in the worker). -/
-theorem reduce_negative_stride_counterexample :
-    let m : Arr := ⟨1000, [8], [8], 8⟩
-    let a : Arr := ⟨1056, [8], [-8], 8⟩
-    let r := reduceMemmapBacked a m 0 false false false
-    rebuiltElemOffset r 8 [0] = 0 ∧ originalElemOffset a m 0 [0] = 56
-    ∧ rebuiltElemOffset r 8 [1] = -8 ∧ originalElemOffset a m 0 [1] = 48 := by
-  decide
-
-/-- **reduce_contiguous_faithful** (`_partial`, F24): for a contiguous view the rebuilt memmap
-(`make_memmap(shape, order)` at `offset`) is faithful when the order taken from the BACKING memmap is the
-view's own order: C-contiguous view of a C-order memmap, F-contiguous view of a Fortran-order memmap. -/
-theorem reduce_contiguous_faithful_partial (a m : Arr) (m_offset : Nat) (a_c a_f m_f : Bool) (idx : List Nat)
-    (hm : ∀ s ∈ m.strides, 0 ≤ s) (hcontig : (a_f || a_c) = true)
-    (hsame : a.strides = (if m_f then fStrides a.shape a.itemsize else cStrides a.shape a.itemsize)) :
-    rebuiltElemOffset (reduceMemmapBacked a m m_offset a_c a_f m_f) a.itemsize idx
-      = originalElemOffset a m m_offset idx := by
-  have h1 : (byteBounds m).1 = m.ptr := by
-    simp [byteBounds, lowAdj_nonneg_strides m.shape m.strides hm]
-  have hnn : ∀ s ∈ a.strides, 0 ≤ s := by
-    rw [hsame]
-    cases m_f
-    · exact cStrides_nonneg _ _
-    · exact fStridesAux_nonneg _ _
-  have h2 : (byteBounds a).1 = a.ptr := by
-    simp [byteBounds, lowAdj_nonneg_strides a.shape a.strides hnn]
-  simp only [reduceMemmapBacked, hcontig, if_true, rebuiltElemOffset, originalElemOffset, h1, h2]
-  cases m_f
-  · simp only [Bool.false_eq_true, if_false] at hsame ⊢
-    rw [hsame]; omega
-  · simp only [if_true] at hsame ⊢
-    rw [hsame]; omega
-
-/-- F24 witness: `m` = a C-order int64 memmap of shape (2, 3), `a = m.T` (shape (3, 2), strides (8, 24),
-F-contiguous). The reducer passes `order = "C"` (the memmap's) with `strides = None`, so the worker's array
-has element [0, 1] at file offset 8 — the original has it at 24: wrong values, silently. -/
-theorem reduce_transposed_counterexample :
-    let m : Arr := ⟨1000, [2, 3], [24, 8], 8⟩
-    let a : Arr := ⟨1000, [3, 2], [8, 24], 8⟩
-    let r := reduceMemmapBacked a m 0 false true false
-    r.strides = none ∧ r.order = .C
-    ∧ rebuiltElemOffset r 8 [0, 1] = 8 ∧ originalElemOffset a m 0 [0, 1] = 24 := by
-  decide
-
-/-- **total_buffer_len** (`_partial`, F26): when the byte extent of the view is a multiple of its itemsize
-(true whenever every stride is), the `total_buffer_len` items mapped in the worker cover the whole extent
-`a_end - a_start`, i.e. every byte of every element of the view. -/
-theorem total_buffer_len_covers_partial (a m : Arr) (m_offset : Nat) (m_f : Bool)
-    (hdiv : ((byteBounds a).2 - (byteBounds a).1) % (a.itemsize : Int) = 0) :
-    mappedBytes (reduceMemmapBacked a m m_offset false false m_f) a.itemsize
-      = some ((byteBounds a).2 - (byteBounds a).1) := by
-  simp only [reduceMemmapBacked, Bool.or_self, Bool.false_eq_true, if_false, mappedBytes, Option.map_some]
-  congr 1
-  exact Int.ediv_mul_cancel (Int.dvd_of_emod_eq_zero hdiv)
-
-/-- F26 witness: a field view `m['a']` (int64, itemsize 8) of 342 records of 12 bytes: the extent is
-341·12 + 8 = 4100 bytes, `total_buffer_len = 4100 // 8 = 512` items = 4096 bytes: the last element's final
-4 bytes lie beyond the mapping (garbage when the mapping ends on a page boundary, as it does here). -/
-theorem total_buffer_len_floor_counterexample :
-    let m : Arr := ⟨4096, [342], [12], 12⟩
-    let a : Arr := ⟨4096, [342], [12], 8⟩
-    let r := reduceMemmapBacked a m 0 false false false
-    (byteBounds a).2 - (byteBounds a).1 = 4100 ∧ mappedBytes r 8 = some 4096
-    ∧ originalElemOffset a m 0 [341] + 8 = 4100 := by
-  decide
-
-/-! ## The candidate repair (fixes/F24-F26-memmap-view-reduction.diff) satisfies the full statements -/
-
-/-- With `order` taken from the view and the position of element 0 computed from the negative strides, the
-rebuilt STRIDED view is faithful for EVERY stride vector (negative strides included). -/
-theorem repaired_strided_faithful (a m : Arr) (m_offset : Nat) (idx : List Nat)
+/-- **reduce_strided_faithful.** For a non-contiguous view with ANY stride vector — negative strides, strides
+that are not multiples of the itemsize — the array rebuilt in the worker (`as_strided` anchored `first` bytes
+into a byte buffer mapped at `offset`) finds every element at the file offset where the original view has it. -/
+theorem reduce_strided_faithful (a m : Arr) (m_offset : Nat) (idx : List Nat)
     (hm : ∀ s ∈ m.strides, 0 ≤ s) :
-    rebuiltElemOffsetRepaired (reduceMemmapBackedRepaired a m m_offset false false) a.itemsize idx
+    rebuiltElemOffset (reduceMemmapBacked a m m_offset false false) a.itemsize idx
       = originalElemOffset a m m_offset idx := by
   have h1 := lowAdj_nonneg_strides m.shape m.strides hm
-  simp only [reduceMemmapBackedRepaired, Bool.or_self, Bool.false_eq_true, if_false,
-    rebuiltElemOffsetRepaired, originalElemOffset, byteBounds, firstElem, h1]
+  simp only [reduceMemmapBacked, Bool.or_self, Bool.false_eq_true, if_false,
+    rebuiltElemOffset, originalElemOffset, byteBounds, firstElem, h1]
   omega
 
-/-- … the rebuilt CONTIGUOUS view is faithful whenever the view's strides are those of its own order — no
-condition on the backing memmap's order any more. -/
-theorem repaired_contiguous_faithful (a m : Arr) (m_offset : Nat) (a_c a_f : Bool) (idx : List Nat)
+/-- **reduce_contiguous_faithful.** For a contiguous view — its strides are those of its own order: Fortran
+strides when it is F- and not C-contiguous, C strides otherwise — the rebuilt memmap (`make_memmap(shape,
+order)` at `offset`) is faithful, whatever the order of the backing memmap. -/
+theorem reduce_contiguous_faithful (a m : Arr) (m_offset : Nat) (a_c a_f : Bool) (idx : List Nat)
     (hm : ∀ s ∈ m.strides, 0 ≤ s) (hcontig : (a_f || a_c) = true)
     (hown : a.strides = (if a_f && !a_c then fStrides a.shape a.itemsize else cStrides a.shape a.itemsize)) :
-    rebuiltElemOffsetRepaired (reduceMemmapBackedRepaired a m m_offset a_c a_f) a.itemsize idx
+    rebuiltElemOffset (reduceMemmapBacked a m m_offset a_c a_f) a.itemsize idx
       = originalElemOffset a m m_offset idx := by
   have h1 : (byteBounds m).1 = m.ptr := by
     simp [byteBounds, lowAdj_nonneg_strides m.shape m.strides hm]
@@ -396,28 +315,70 @@ theorem repaired_contiguous_faithful (a m : Arr) (m_offset : Nat) (a_c a_f : Boo
     · exact fStridesAux_nonneg _ _
   have h2 : (byteBounds a).1 = a.ptr := by
     simp [byteBounds, lowAdj_nonneg_strides a.shape a.strides hnn]
-  simp only [reduceMemmapBackedRepaired, hcontig, if_true, rebuiltElemOffsetRepaired, originalElemOffset, h1, h2]
+  simp only [reduceMemmapBacked, hcontig, if_true, rebuiltElemOffset, originalElemOffset, h1, h2]
   cases hord : (a_f && !a_c)
   · simp only [hord, Bool.false_eq_true, if_false] at hown ⊢
     rw [hown]; omega
   · simp only [hord, if_true] at hown ⊢
     rw [hown]; omega
 
-/-- … and the byte buffer it maps is exactly the extent `[a_start, a_end)` of the view — nothing floored. -/
-theorem repaired_buffer_is_the_extent (a : Arr) :
-    repairedMappedBytes a.shape a.strides a.itemsize = (byteBounds a).2 - (byteBounds a).1 := by
-  simp only [repairedMappedBytes, firstElem, byteBounds]
+/-- **total_buffer_len_covers.** The byte buffer mapped in the worker for a non-contiguous view is EXACTLY the
+extent `[a_start, a_end)` of the view — every byte of every element, nothing floored, nothing beyond — and the
+anchor `first` lies inside it with room for one item (a non-contiguous array has no empty dimension). -/
+theorem total_buffer_len_covers (a : Arr) (hpos : ∀ n ∈ a.shape, 1 ≤ n) :
+    mappedBytes a.shape a.strides a.itemsize = (byteBounds a).2 - (byteBounds a).1
+    ∧ 0 ≤ firstElem a.shape a.strides
+    ∧ firstElem a.shape a.strides + a.itemsize ≤ mappedBytes a.shape a.strides a.itemsize := by
+  have hl := lowAdj_nonpos a.shape a.strides hpos
+  have hh := highAdj_nonneg a.shape a.strides hpos
+  simp only [mappedBytes, firstElem, byteBounds]
   omega
 
-/-- The three witnesses above are repaired. -/
-theorem repaired_witnesses :
+/-! ## PRE-FIX witnesses: the three defects of the code BEFORE b514cf6 / 5cddabe, on the `…PreFix` definitions,
+and the same inputs on the code as it is now -/
+
+/-- F25 witness (pre-fix): `m` = a C-order int64 memmap of 8 items, `a = m[::-1]` (`ptr` at the last item,
+stride −8). The pre-fix rebuilt view looked for element 0 at file offset 0 — the original has it at 56 — and for
+element 1 at offset −8, before the mapping (wrong values, or SIGSEGV in the worker). -/
+theorem prefix_negative_stride_counterexample :
+    let m : Arr := ⟨1000, [8], [8], 8⟩
+    let a : Arr := ⟨1056, [8], [-8], 8⟩
+    let r := reduceMemmapBackedPreFix a m 0 false false false
+    rebuiltElemOffsetPreFix r 8 [0] = 0 ∧ originalElemOffset a m 0 [0] = 56
+    ∧ rebuiltElemOffsetPreFix r 8 [1] = -8 ∧ originalElemOffset a m 0 [1] = 48 := by
+  decide
+
+/-- F24 witness (pre-fix): `m` = a C-order int64 memmap of shape (2, 3), `a = m.T` (shape (3, 2), strides
+(8, 24), F-contiguous). The pre-fix reducer passed `order = "C"` (the memmap's) with `strides = None`, so the
+worker's array had element [0, 1] at file offset 8 — the original has it at 24: wrong values, silently. -/
+theorem prefix_transposed_counterexample :
+    let m : Arr := ⟨1000, [2, 3], [24, 8], 8⟩
+    let a : Arr := ⟨1000, [3, 2], [8, 24], 8⟩
+    let r := reduceMemmapBackedPreFix a m 0 false true false
+    r.strides = none ∧ r.order = .C
+    ∧ rebuiltElemOffsetPreFix r 8 [0, 1] = 8 ∧ originalElemOffset a m 0 [0, 1] = 24 := by
+  decide
+
+/-- F26 witness (pre-fix): a field view `m['a']` (int64, itemsize 8) of 342 records of 12 bytes: the extent is
+341·12 + 8 = 4100 bytes, `total_buffer_len = 4100 // 8 = 512` items = 4096 bytes mapped: the last element's
+final 4 bytes lay beyond the mapping. -/
+theorem prefix_total_buffer_len_floor_counterexample :
+    let m : Arr := ⟨4096, [342], [12], 12⟩
+    let a : Arr := ⟨4096, [342], [12], 8⟩
+    let r := reduceMemmapBackedPreFix a m 0 false false false
+    (byteBounds a).2 - (byteBounds a).1 = 4100 ∧ mappedBytesPreFix r 8 = some 4096
+    ∧ originalElemOffset a m 0 [341] + 8 = 4100 := by
+  decide
+
+/-- The same three inputs on the code as it is now. -/
+theorem prefix_witnesses_repaired :
     (let m : Arr := ⟨1000, [8], [8], 8⟩
      let a : Arr := ⟨1056, [8], [-8], 8⟩
-     rebuiltElemOffsetRepaired (reduceMemmapBackedRepaired a m 0 false false) 8 [1] = originalElemOffset a m 0 [1])
+     rebuiltElemOffset (reduceMemmapBacked a m 0 false false) 8 [1] = originalElemOffset a m 0 [1])
     ∧ (let m : Arr := ⟨1000, [2, 3], [24, 8], 8⟩
        let a : Arr := ⟨1000, [3, 2], [8, 24], 8⟩
-       rebuiltElemOffsetRepaired (reduceMemmapBackedRepaired a m 0 false true) 8 [0, 1] = originalElemOffset a m 0 [0, 1])
-    ∧ repairedMappedBytes [342] [12] 8 = 4100 := by
+       rebuiltElemOffset (reduceMemmapBacked a m 0 false true) 8 [0, 1] = originalElemOffset a m 0 [0, 1])
+    ∧ mappedBytes [342] [12] 8 = 4100 := by
   decide
 
 /-! ## Non-vacuity -/
@@ -431,7 +392,8 @@ example : maxReadCount 8 = .ok 32768 := by rfl
 example : orderOf false true = .F ∧ orderOf true true = .C ∧ orderOf false false = .C := by decide
 example : writeIndex .F [2, 3] [1, 2] = 5 ∧ readIndex .F [2, 3] [1, 2] = 5 ∧ writeIndex .C [2, 3] [1, 2] = 5 := by
   decide
-example : reduceMemmapBacked ⟨1008, [3, 3], [128, 24], 8⟩ ⟨1000, [6, 8], [64, 8], 8⟩ 0 false false false
+example : reduceMemmapBacked ⟨1008, [3, 3], [128, 24], 8⟩ ⟨1000, [6, 8], [64, 8], 8⟩ 0 false false
     = ⟨8, .C, [3, 3], some [128, 24], some 39⟩ := by decide
+example : mappedBytes [3, 3] [128, 24] 8 = 312 ∧ firstElem [3, 3] [-128, 24] = 256 := by decide
 
 end C19
